@@ -260,7 +260,13 @@ class BayesianProblem(object):
             print("!!!!!!!!!!!!!!!!!!!!!!!!!!!!!!!!!!!!!!!!!!!!!!!!!!!!!!!!")
             print("")
 
-        if self._check_posterior(self, Gaussian, Gaussian, LinearModel, max_dim=config.MAX_DIM_INV):
+        # The closed-form expression uses the model matrix as the map between parameters, which it is only
+        # if the geometries of the model do not transform the parameters (otherwise use numerical optimization)
+        identity_geometries = cuqi.geometry._get_identity_geometries()
+
+        if self._check_posterior(self, Gaussian, Gaussian, LinearModel, max_dim=config.MAX_DIM_INV) and\
+            type(self.model.domain_geometry) in identity_geometries and\
+            type(self.model.range_geometry) in identity_geometries:
             if disp: print(f"Using direct MAP of Gaussian posterior. Only works for small-scale problems with dim<={config.MAX_DIM_INV}.")
             b  = self.data
             A  = self.model.get_matrix()
